@@ -104,6 +104,8 @@ var reg = vk.Registry{
 	},
 }
 
+func init() { reg["sequence"] = vk.SequenceReplayer(reg) }
+
 func TestReplay(t *testing.T) { vk.RunReplay(t, reg) }
 
 // parseParts: parsing each produced part returns exactly ref/total/seq and the payload.
@@ -150,6 +152,22 @@ func eval(t vk.TB, c splitk.Case, constructed bool) {
 		if v := splitk.Shape(c, splitk.RunBatch(c)); v != nil {
 			v.Key = "batch:" + v.Key
 			rec.Report(t, "batchsplit", v)
+		}
+	}
+	// the same text and coding number through the OTHER protocol's entry point right afterwards, then this
+	// one again: each call is a function of its own arguments
+	if len(r.Parts) >= 2 && !constructed {
+		tw := splitk.Twin(c)
+		rec.Eval()
+		rec.Class("same_text_other_protocol_right_after")
+		if v := splitk.Shape(tw, splitk.Run(tw)); v != nil {
+			v.Key = "after-same-text-other-protocol/" + v.Key
+			v.Case = vk.SeqCase{Kind: "split", First: c, Then: tw}
+			rec.Report(t, "sequence", v)
+		} else if v := splitk.Shape(c, splitk.Run(c)); v != nil {
+			v.Key = "after-same-text-other-protocol/" + v.Key
+			v.Case = vk.SeqCase{Kind: "split", First: c, Then: tw}
+			rec.Report(t, "sequence", v)
 		}
 	}
 }
